@@ -223,6 +223,11 @@ func cmdCheck(args []string) {
 		}
 		return true
 	}
+	var ledger Ledger
+	haveLedger := readJSON(fmt.Sprintf("%s/ledger/%s.json", verifDir, *prop), &ledger) == nil
+	if haveLedger {
+		knownHashes = ledger.Hashes // lets the solver stage skip the long retry for a condition identical to a discharged one
+	}
 	solveAll(units, solveFilter, timeout, thorough, *dump)
 	solveSecs := time.Since(solveT).Seconds()
 
@@ -234,8 +239,6 @@ func cmdCheck(args []string) {
 			known[f.Obligation] = f.What
 		}
 	}
-	var ledger Ledger
-	haveLedger := readJSON(fmt.Sprintf("%s/ledger/%s.json", verifDir, *prop), &ledger) == nil
 	ledgerObs := map[string]bool{}
 	for _, n := range ledger.Obligations {
 		ledgerObs[n] = true
